@@ -2,6 +2,7 @@
   C08 — Persisters return the latest written value regardless of batching state.
 -/
 import SV.Persist.Proofs
+import SV.GenProofs
 namespace SV.Props.C08
 open SV SV.Persist
 
@@ -26,5 +27,11 @@ theorem mem_is_a_map (m : Mem) (k k' : Bytes) (v : Val) (hk : k' ≠ k) :
 /-- F8 (pre-repair): a nil value in the pending batch read as absent -/
 theorem legacy_F8 : ∃ (p : P) (k : Bytes), (p.put k ⟨true, []⟩).get Variant.legacy k ≠ (p.put k ⟨true, []⟩).abs k :=
   legacy_nil_counterexample
+
+/-! ### tie by translation: the source's own leaf logic (regenerated into SV/Generated/Funcs.lean on every run) IS the model's -/
+theorem source_flush_test_is_the_models (p : P) :
+    p.bump = (if Gen.dbNoFlushNeeded p.sizeBatch p.maxBatch then { p with sizeBatch := p.sizeBatch + 1 }
+              else ({ p with sizeBatch := p.sizeBatch + 1 } : P).flush) ∧
+    Gen.serialNoFlushNeeded p.sizeBatch p.maxBatch = Gen.dbNoFlushNeeded p.sizeBatch p.maxBatch := GenProofs.bump_eq p
 
 end SV.Props.C08
